@@ -156,12 +156,12 @@ func init() {
 }
 
 // schedAligned: structured larger histories: [add N][delete a union of up to two aligned blocks,
-// add k][delete one aligned block of live leaves][delete one more leaf], N = 16 (thorough: 12, 16,
-// 24, 32), every memory limit.
+// add k][delete one aligned block of live leaves][delete one more leaf], N = 12, 16 (thorough: also
+// 14, 24, 32), seven memory limits.
 func schedAligned(c *Ctx) {
-	Ns := []int{16}
+	Ns := []int{12, 16}
 	if c.Thorough() {
-		Ns = []int{12, 16, 24, 32}
+		Ns = []int{12, 14, 16, 24, 32}
 	}
 	c.Cov.Bound["aligned.N"] = fmt.Sprint(Ns)
 	var hists [][]Op
@@ -237,7 +237,7 @@ func containsInt(a []int, x int) bool {
 
 func schedPass(c *Ctx, nmax, depth int, tag string) {
 	{
-		c.Cov.Rule = "every block history (no de-duplication) with at most Nmax leaves ever added and at most D blocks (every deletion subset of the live leaves x every addition count, non-empty blocks); the summaries fed to AddBlockSummary are the reference proof targets in request order and the addition counts; GenerateCachingSchedule is evaluated for every memory limit from 1 to (leaves ever added)+1 on a fresh tracker; oracle from the model's birth/death table: every scheduled position of block b is the insertion slot of a leaf added in b and deleted in a later block, ascending without repeats, at most m scheduled leaves alive across any block, complete when m >= leaves ever added, no panic; states = histories, transitions = (history, limit) evaluations, a second, wider and shallower pass (more leaves, depth 3) reaches deletions of whole aligned subtrees of four; a third, structured pass uses 16 (thorough: up to 32) leaves with unions of aligned blocks deleted over up to four blocks and the memory limits 1, 2, 3, half, total-1, total, total+1; non-trivial = histories with a deletion"
+		c.Cov.Rule = "every block history (no de-duplication) with at most Nmax leaves ever added and at most D blocks (every deletion subset of the live leaves x every addition count, non-empty blocks); the summaries fed to AddBlockSummary are the reference proof targets in request order and the addition counts; GenerateCachingSchedule is evaluated for every memory limit from 1 to (leaves ever added)+1 on a fresh tracker; oracle from the model's birth/death table: every scheduled position of block b is the insertion slot of a leaf added in b and deleted in a later block, ascending without repeats, at most m scheduled leaves alive across any block, complete when m >= leaves ever added, no panic; states = histories, transitions = (history, limit) evaluations, a second, wider and shallower pass (more leaves, depth 3) reaches deletions of whole aligned subtrees of four; a third, structured pass uses 12 and 16 (thorough: up to 32) leaves with unions of aligned blocks deleted over up to four blocks and the memory limits 1, 2, 3, half, total-1, total, total+1; non-trivial = histories with a deletion"
 		c.Cov.Bound[tag+"Nmax"] = nmax
 		c.Cov.Bound[tag+"depth"] = depth
 		// first-level subtrees as parallel tasks: enumerate all histories of depth<=2 as seeds
